@@ -193,7 +193,7 @@ func init() {
 		// keep copies of option palettes to detect writes through them
 		var pals []*[64]color.RGBA
 		var keep [][64]color.RGBA
-		var opts []decode.DecodeOption
+		opts := make([]decode.DecodeOption, 0, len(a)+4)
 		for _, s := range a[5:] {
 			if strings.HasPrefix(s, "OP:") {
 				p := palOfTok(s[3:])
@@ -217,6 +217,9 @@ func init() {
 				return "OPTION-PALETTE-MODIFIED"
 			}
 		}
+		if spareModified(opts) {
+			return "OPTIONS-SLICE-MODIFIED"
+		}
 		return decOutcome(err) + " " + strings.Join(z.log, " ")
 	}
 
@@ -229,6 +232,13 @@ func init() {
 		r.SetRasterizer(z, rect)
 		playRenderer(r, ta)
 		z.log = nil
+		// B may start with "SR x0 y0 w h": SetRasterizer with another rectangle before B (the fresh Renderer gets that one)
+		if len(tb) >= 5 && tb[0] == "SR" {
+			bx, by, bw, bh := intarg(tb[1]), intarg(tb[2]), intarg(tb[3]), intarg(tb[4])
+			rect = image.Rect(bx, by, bx+bw, by+bh)
+			r.SetRasterizer(z, rect)
+			tb = tb[5:]
+		}
 		playRenderer(r, tb)
 		reused := strings.Join(z.log, " ") + fmt.Sprintf(" | cs=%d ns=%d", r.CSel(), r.NSel())
 		z2 := &recRasterizer{}
@@ -236,6 +246,22 @@ func init() {
 		r2.SetRasterizer(z2, rect)
 		playRenderer(r2, tb)
 		return reused + " || " + strings.Join(z2.log, " ") + fmt.Sprintf(" | cs=%d ns=%d", r2.CSel(), r2.NSel())
+	}
+
+	handlers["ESHARE"] = func(a []string) string {
+		ta, tb := splitBar(a)
+		e1 := &encode.Encoder{}
+		playEnc(e1, ta)
+		b1, _ := e1.Bytes()
+		snap := string(b1)
+		e2 := &encode.Encoder{}
+		o2 := playEnc(e2, tb)
+		b1b, _ := e1.Bytes()
+		st := "A-STABLE"
+		if string(b1b) != snap {
+			st = "A-CHANGED"
+		}
+		return strings.Join(o2, " ") + " | " + st
 	}
 
 	handlers["EREUSE"] = func(a []string) string {
